@@ -33,6 +33,21 @@ package dkv
 //@   assumes forall(func(k string) bool { return has(db.live, k) == (has(old(db.live), k) && k != string(key)) })
 
 // currentSSTables: the level list installed at the moment of the call.
+// Start (restore from a checkpoint): the database continues from the checkpoint's tables AND its
+// sequence numbers (a restored instance that numbered its writes from 0 again would lose them to
+// the older versions in the restored tables: newest-by-sequence-number wins in every merge), and
+// it re-applies from the checkpoint's WAL exactly the operations - puts and deletes alike - on
+// keys THIS instance owns (after a rescale the WALs of other instances are replayed too).
+//@ func DB.Start
+//@   property C03 C06 C07 C08
+//@   nosafety
+//@   exclusive
+//@   atcall Put: db.dataOwnership.OwnsKey(arg0) && same(arg0, entry.K) && same(arg1, entry.V) && !entry.Deleted
+//@   atcall Delete: db.dataOwnership.OwnsKey(arg0) && same(arg0, entry.K) && entry.Deleted
+//@   checks result == nil && latestCP != nil ==> db.seqNum >= latestCP.Levels.LatestSeqNum
+//@   loop 0:
+//@     invariant db.seqNum >= latestCP.Levels.LatestSeqNum
+
 //@ func DB.currentSSTables
 //@   property C07 C03
 //@   modifies nothing
